@@ -5,7 +5,7 @@ EXTENDS AuthOps, TLC
 CONSTANTS Allowed, MaxLen
 VARIABLES s, n, via     \* via: ghost -- the mechanism whose completion produced the current authorization
 vars == <<s, n, via>>
-Cfg == [allowed |-> Allowed, sockUid |-> 1000, serverUid |-> 0, sockCanReadKeyring |-> TRUE]
+Cfg == [allowed |-> Allowed, sockUid |-> 1000, serverUid |-> 0, sockCanReadKeyring |-> TRUE, sockGids |-> <<2, 1000>>]
 Cmds == [c : {"cancel", "error", "begin", "fd", "unknown"}, mech : {""}, hex : {"none"}, who : {"empty"}, resp : {"wrong"}]
         \cup [c : {"auth"}, mech : {"EXTERNAL", "DBUS_COOKIE_SHA1", "ANONYMOUS", "OTHER", ""}, hex : {"none", "ok", "bad"}, who : {"same", "other", "garbage"}, resp : {"wrong"}]
         \cup [c : {"data"}, mech : {""}, hex : {"none", "ok", "bad"}, who : {"same", "other", "empty"}, resp : {"correct", "wrong"}]
